@@ -141,8 +141,23 @@ def run(ctx):
     stores = [n for n in v.cfg.nodes if n.kind == "stmt" and isinstance(n.ast, ast.Assign) and any(
         isinstance(t, ast.Attribute) and t.attr == "_namespace" for t in n.ast.targets)]
     ctx.floor("R13.2", "namespace stores in set_schema_prefix", len(stores), 1)
+    nsp = sp.params()[1] if len(sp.params()) > 1 else "schema_namespace"
     for s in stores:
         g = v.guard_for(s, lambda t: mentions(t, "isalpha"), want_leave=("raise",))
+        if g is None:
+            # the test may sit inside `if <namespace>:` — then the only way round it must be the empty-namespace edge
+            alpha = {c for c in v.conds(lambda t: mentions(t, "isalpha")) if "raise" in (v.leaves(c, True) | v.leaves(c, False))}
+            cuts = set()
+            for c in v.conds():
+                t = c.ast
+                if isinstance(t, ast.Name) and t.id == nsp:
+                    cuts.add((c, False))
+                elif isinstance(t, ast.UnaryOp) and isinstance(t.op, ast.Not) and isinstance(t.operand, ast.Name) and t.operand.id == nsp:
+                    cuts.add((c, True))
+            if alpha and cuts:
+                r = v.reachable_from_entry(avoid=alpha, cut_edges=cuts)
+                if s not in r:
+                    g = (None, None)
         ctx.check(g is not None, "R13.2", sp.qualname, s.ast, loc(sp, s.ast),
                   "the namespace is stored without the alphabetic test and its raise dominating the store",
                   desc="non-alphabetic prefix refused before the store")
@@ -265,8 +280,18 @@ def run(ctx):
     # "the same library" is decided on the library *name*, not on name_version
     from sa.dataflow import ReachingDefs as _RD13, depends_on as _dep13
     rdp13 = _RD13(pvl)
-    is_name_split = lambda y: isinstance(y, ast.Call) and isinstance(y.func, ast.Attribute) and y.func.attr in ("rpartition", "partition", "split", "rsplit") \
+    _split_here = lambda y: isinstance(y, ast.Call) and isinstance(y.func, ast.Attribute) and y.func.attr in ("rpartition", "partition", "split", "rsplit") \
         and y.args and isinstance(y.args[0], ast.Constant) and y.args[0].value == "_"
+
+    def is_name_split(y):
+        if _split_here(y):
+            return True
+        if isinstance(y, ast.Call):          # a module helper that does the split
+            for k_, t_ in cg.resolve_call(y, pvl):
+                if k_ == "precise" and any(_split_here(z) for r_ in walk_no_nested(t_.node) if isinstance(r_, ast.Return) and r_.value is not None
+                                           for z in ast.walk(r_.value)):
+                    return True
+        return False
     for a in appends:
         g = vp.guard_for(a, lambda t: any(isinstance(x, ast.Compare) and any(isinstance(o, ast.In) for o in x.ops) for x in ast.walk(t)),
                          want_leave=("raise",))
@@ -306,7 +331,8 @@ def run(ctx):
         # a test of the has_duplicates() result (directly or through a local)
         rd2 = ctx.shared.setdefault("rd_lsv2", ReachingDefs(lsv2))
         if depends_on(rd2, cnd.ast, cnd.ast, lambda x: isinstance(x, ast.Call) and call_name(x) == "has_duplicates"):
-            if "raise" in v2.leaves(cnd, True):
+            from sa.dom import edge_always_raises
+            if "raise" in v2.leaves(cnd, True) or edge_always_raises(v2, cnd, True) or edge_always_raises(v2, cnd, False):
                 dup_conds.append(cnd)
     for n, c in merges:
         loops = [lp for lp in v2.cfg.nodes if lp.kind == "loop" and any(x is c for x in ast.walk(lp.ast))]
